@@ -27,7 +27,10 @@ def gen_tm(g, out, thorough, samples):
     n = 0
     for k, (ds, gender, age, jt) in enumerate(ms):
         out.append("case c18tm_%d" % k)
-        out.append("geo tm new %d %d %d %d %s %s" % (ds, gender, age, jt, fr(g.q(F(15, 10), F(19, 10), 40)), fr(g.q(50, 95, 45))))
+        # all four combinations of angle / torque sign conventions (flexor / extensor pairs on one coordinate)
+        sa, st = [(1, 1), (-1, 1), (1, -1), (-1, -1)][k % 4]
+        out.append("geo tm new %d %d %d %d %s %s %d %d" % (ds, gender, age, jt, fr(g.q(F(15, 10), F(19, 10), 40)), fr(g.q(50, 95, 45)), sa, st))
+        g.stats["torque-muscle:signs%+d%+d" % (sa, st)] += 1
         for _ in range(4 if thorough else 3):
             ta = g.q(-F(1, 8), F(1, 8), 50)
             tw = g.q(-F(8, 10), F(8, 10), 64)
